@@ -316,6 +316,12 @@ impl<'tx> TxInner<'tx> {
                     file.write_all(buf)?;
                 }
             }
+
+            // Make sure the data pages are durable before the meta page that points at them is
+            // written. Without this a power loss could persist the new meta page but not (all of)
+            // the pages it refers to, and the database would open in a corrupt state.
+            file.flush()?;
+            file.sync_all()?;
         }
         if self.db.inner.flags.strict_mode {
             self.check()?;
